@@ -290,7 +290,11 @@ class ExceptionTrace(object):
             exception_message = io.remove_format(
                 inspector.exception_message
             ).replace("\n", "\n  ")
-            self._render_line(io, "<b>{}</b>".format(exception_message))
+            # Writing the line formats it once more: what is left of the
+            # message is text, not markup
+            self._render_line(
+                io, "<b>{}</b>".format(exception_message.replace("<", "\\<"))
+            )
         except ValueError:
             # The message is not valid markup
             io.write_line_raw(
